@@ -838,6 +838,9 @@ impl StateMachine for RocksDBStateMachine {
                         let lease =
                             self.lease.as_ref().expect("lease always initialized by NodeBuilder");
                         lease.register(key.clone(), *ttl);
+                    } else if let Some(ref lease) = self.lease {
+                        // a write without TTL replaces the key's lifetime: cancel an earlier lease
+                        lease.unregister(key);
                     }
 
                     results.push(ApplyResult::success(entry.index));
@@ -869,6 +872,9 @@ impl StateMachine for RocksDBStateMachine {
 
                     if cas_success {
                         batch.put_cf(&cf, key, new_value);
+                        if let Some(ref lease) = self.lease {
+                            lease.unregister(key);
+                        }
                     }
 
                     results.push(if cas_success {
